@@ -444,6 +444,9 @@ func init() {
 	reg("sdp-pt-out-of-range", "sdp", "DESCRIBE", false, func(s *server, req *base.Request, r *resp, d *delivery) {
 		replaceLine(r, "m=video", "m=video 0 RTP/AVP 999")
 	})
+	reg("sdp-duplicate-payload-type", "sdp", "DESCRIBE", true, func(s *server, req *base.Request, r *resp, d *delivery) {
+		replaceLine(r, "m=video", "m=video 0 RTP/AVP 96 96")
+	})
 	reg("sdp-media-line-garbage", "sdp", "DESCRIBE", false, func(s *server, req *base.Request, r *resp, d *delivery) {
 		replaceLine(r, "m=video", "m=video")
 	})
